@@ -53,6 +53,9 @@ fn mk_c13() -> Vec<Box<dyn Monitor>> {
 fn mk_c11() -> Vec<Box<dyn Monitor>> {
     vec![Box::new(mon::c11::C11::new()), Box::new(mon::c11::C11Reject)]
 }
+fn mk_c14() -> Vec<Box<dyn Monitor>> {
+    vec![Box::new(mon::c14::C14)]
+}
 fn mk_c06() -> Vec<Box<dyn Monitor>> {
     vec![Box::new(mon::swaps::C06)]
 }
@@ -169,6 +172,17 @@ fn specs() -> Vec<CheckSpec> {
         mk: mk_c11,
         level: "exploration",
         rule: "core histories plus a reward authority (initialise 1-3 rewards v1/v2, fund or under-fund the vaults, change emission rates incl. 0, 2^64*10^9, 2^100 and near-u128::MAX, authority hand-overs) and LPs collecting rewards, under a simulated clock with stall / jump (seconds to decades) / back-step faults; an exact rational shadow ledger accrues emissions x elapsed seconds over the positions in range between consecutive accrual points (old rate at a rate change); every credit c obeys c <= floor(e) and c >= floor(e) - (intervals*L/2^64 + 2) unless a documented carve-out applies; time-reading instructions with a clock earlier than the last update must fail; collects pay min(owed, vault); emission changes need a day of emissions in the vault (both directions); a case is one (instruction, reward index, initialised, earned, #intervals, carve-out) tuple",
+        quick_runs: 400,
+        thorough_secs: 600,
+        assumptions: COMMON_ASSUMPTIONS,
+        extra: None,
+    },
+    CheckSpec {
+        id: "C14",
+        profile: Profile::Adaptive,
+        mk: mk_c14,
+        level: "exploration",
+        rule: "pools created from adaptive fee tiers with constants drawn over the whole valid region (boundary biased: control factor 0 / 99999, max accumulator 0 / u32 limit, group size = every divisor of the spacing, decay = filter+1 .. 3600), permissioned tiers with a trade-enable time; LPs/traders/keeper under the core faults plus clock stall / jump (1 s, 59-61 s, 3599-3601 s, days, decades) / back-step and same-second bursts; a naive group-by-group model written from the documentation (no skip optimisation) gives the reference after the elapsed-time class and the rate of every tick group; each traced step must charge the model's rate on every group its price interval touches, accumulator <= max, static <= rate <= 100000, control factor 0 => static rate; after the swap the stored reference, accumulator (group where the swap ended or adjacent) and major-swap timestamp (1e-9 tolerance band) must follow the rules; swaps before the trade-enable time must fail and only those; a case is one (instruction, direction, elapsed-time class, control factor 0, #steps, skip used, saturated) tuple",
         quick_runs: 400,
         thorough_secs: 600,
         assumptions: COMMON_ASSUMPTIONS,
